@@ -44,6 +44,7 @@ func (p *VectorPool) GetVectorBatch() []StepVector {
 }
 
 func (p *VectorPool) PutVectors(vector []StepVector) {
+	verifPoisonVectors(vector)
 	vector = vector[:0]
 	p.vectors.Put(&vector)
 }
@@ -57,6 +58,7 @@ func (p *VectorPool) GetStepVector(t int64) StepVector {
 }
 
 func (p *VectorPool) PutStepVector(v StepVector) {
+	verifPoisonStepVector(v)
 	v.SampleIDs = v.SampleIDs[:0]
 	v.Samples = v.Samples[:0]
 	p.sampleIDs.Put(&v.SampleIDs)
